@@ -18,12 +18,25 @@ type sparseEntry struct {
 // signature tag 0 (the one a prior signer already used) or 1 (a new one), or an
 // arbitrary out-of-range 16-bit value.
 func wellFormedEntry(name string, n int) sparseEntry {
-	k := verifrt.Choose(name+"-kind", 2*n+1)
+	k := verifrt.Choose(name+"-kind", 3*n+1)
 	if k < 2*n {
 		i := k / 2
 		return sparseEntry{
 			e:        gcrypto.SparseSignature{KeyID: vkit.KeyID(i), Sig: vkit.Sig(byte(i), byte(k%2))},
 			wellForm: true, inRange: true, idx: i,
+		}
+	}
+	if k < 3*n {
+		// replay: the signature bytes of ANOTHER candidate (the ones a prior signer used, so the
+		// proof may hold them already) offered under this candidate's key id. A signature is
+		// valid for at most one key (stated assumption), so it does not verify for this one.
+		j := k - 2*n
+		i := (j + 1) % n
+		sig := vkit.Sig(byte(i), 0)
+		verifrt.Assume(!vkit.Keys(0, n)[j].Verify(msgA, sig))
+		return sparseEntry{
+			e:        gcrypto.SparseSignature{KeyID: vkit.KeyID(j), Sig: sig},
+			wellForm: true, inRange: true, idx: j,
 		}
 	}
 	hi, lo := verifrt.U8(name+"-id-hi"), verifrt.U8(name+"-id-lo")
